@@ -35,6 +35,13 @@ def graphiter(seed, tier, quick=60, thorough=2500):
     return dict(ok=r["ok"], cases=r["cases"], distinct_nontrivial=r["graphs"], graphs=r["graphs"], worlds=r["worlds"], features=r["features"], fixed_vertices=r["fixed_vertices"], samples=r["samples"], disagreements=r["disagreements"][:3])
 
 
+def fullrun(seed, tier, quick=60, thorough=2500):
+    from harness import fullrun as FR
+
+    r = FR.run(seed, quick if tier == "quick" else thorough)
+    return dict(ok=r["ok"], cases=r["cases"], distinct_nontrivial=r["runs"], runs=r["runs"], worlds=r["worlds"], iterations=r["iterations"], outcomes=r["outcomes"], borderline_not_compared=r["borderline"], nonfinite=r["nonfinite"], samples=r["samples"], disagreements=r["disagreements"][:3])
+
+
 def ctl(seed, tier, quick=(60, 400), thorough=(1500, 20000)):
     from harness import ctl as C
 
